@@ -7,7 +7,7 @@ BASE_OFF = "cd /repo && go test -mod=mod -json -vet=off -count=1 -timeout 25m ./
 # id -> (level, technique, level text, level note, design ref)
 CHECKS = {
  "C17": ("model_checking",
-         "exhaustive enumeration of read schedules (all 2^(n-1) partitions x EOF convention x carry split x limit) on the real codecs against the message sequence as reference model",
+         "exhaustive enumeration of read schedules (all 2^(n-1) partitions x EOF convention x carry split x limit) on the real codecs against the message sequence as reference model; plus the write side (WriteNext framing, caller-memory immutability, ReadNext->WriteNext relays over read granularities x buffer capacities)",
          "Every read schedule of the scripted reader (all partitions of short streams, all carry-over splits, both EOF conventions, limits around each message size, truncation at every offset, every 1..10-byte length prefix over a small byte alphabet) is executed on the real CodecProto/CodecJSON/HttpBody chunker; the oracle is the written sequence itself. Exhaustive within the stated alphabets; states = (bytes consumed, carry length, message index).",
          "Trusts the scripted reader as a model of io.Reader (incl. n>0 with io.EOF); limit<=0 not exercised; long streams use uniform chunkings and <=1 cut instead of all partitions.",
          "DESIGN.md §3 C17"),
@@ -20,12 +20,12 @@ CHECKS.update({
          "Exhaustive within the alphabets (literals {a,bb,v1}, fills {x,a,7}); percent-encoded paths and values outside the alphabets are not explored. Reference matcher ref/template is trusted.",
          "DESIGN.md §3 C01"),
  "C02": ("exploration",
-         "bounded-exhaustive enumeration of rule sets x all registration-order permutations x every template instantiation on the real Mux; differential across orders plus reference precedence rule",
+         "bounded-exhaustive enumeration of rule sets x all registration-order permutations x every template instantiation on the real Mux; differential across orders plus reference precedence rule; plus bounded-exhaustive register/drop histories over every 3-subset of a template family (every order, every single removal) compared with a freshly built mux",
          "Every instantiation of every template of every rule set (singles, pairs incl. same-method pairs, triples) must be dispatched to a method owning a matching rule; a rule that is literal where the winner's rule is a pure wildcard must win; the (status, method, message) triple must be identical across every permutation of method order, service order and service-config order; 1..31-segment paths must route through '**'.",
          "Exhaustive within the alphabets; the grey zone listed in DESIGN.md (zero-segment **, ':' outside the verb position, non-convertible captures, literal vs patterned variable, same-method bindings covering identical paths) is excluded.",
          "DESIGN.md §3 C02"),
  "C16": ("exploration",
-         "bounded-exhaustive enumeration of templates, all single-character edits, selector and conflict matrices on the real registration path against the reference parser",
+         "bounded-exhaustive enumeration of templates, all single-character edits, selector and conflict matrices, late-failing rule sets, own-node rebindings and second-owner descriptor revisions on the real registration path against the reference parser; rejection atomicity by snapshot fingerprint",
          "Every generated template and every single-character edit of it is classified by the independent grammar parser (accept / reject / grey) and registered on an empty and on a non-empty mux: accept<=>well-formed+resolvable, rejections are errors (no panic) that leave the snapshot fingerprint and all probe answers unchanged, accepted templates route every instantiation. Body/response_body selector matrix, nested additional bindings and binding conflicts likewise.",
          "Grey zone (either outcome accepted) documented in DESIGN.md; fingerprint hook VerifFingerprint is trusted to reflect the routing snapshot.",
          "DESIGN.md §3 C16"),
